@@ -55,9 +55,29 @@ class StandInPool:
     order in which their results are handed back (both index lists; None = submission order).
     `both`: additionally evaluate f on the swapped pair of every item (records the scorer in both orientations)."""
 
-    def __init__(self, plan=None, both=False):
+    def __init__(self, plan=None, both=False, ncpus=2):
         self.plan, self.both = plan, both
         self.calls = []
+        self.ncpus = self.nodes = ncpus       # the rest of the pathos mapping API, so that another dispatch style is not an alarm
+
+    def clear(self):
+        pass
+
+    def map(self, f, xs):
+        """blocking map: results in submission order"""
+        xs = list(xs)
+        saved, self.plan = self.plan, None          # submission order
+        try:
+            return self.amap(f, xs).get()
+        finally:
+            self.plan = saved
+
+    def imap(self, f, xs):
+        return iter(self.map(f, xs))
+
+    def uimap(self, f, xs):
+        """unordered map: results in the (adversarial) completion order of the plan"""
+        return iter(self.amap(f, xs).get())
 
     def __enter__(self):
         return self
@@ -74,20 +94,26 @@ class StandInPool:
     def amap(self, f, xs):
         xs = list(xs)
         n = len(xs)
-        ev, ret = (None, None) if self.plan is None else self.plan(n, len(self.calls))
+        ev, ret = (None, None) if self.plan is None else self.plan(n, len(self.calls) + len(getattr(self, 'other_calls', [])))
         ev = list(range(n)) if ev is None else ev
         ret = list(range(n)) if ret is None else ret
         res = [None] * n
         for i in ev:
             res[i] = f(xs[i])
         rec = {'submitted': xs, 'results': list(res), 'returned_order': list(ret)}
-        if self.both:
+        if self.both and all(isinstance(x, tuple) and len(x) == 2 for x in xs) and all(isinstance(t, tuple) and len(t) == 3 for t in res):
             g = {}
             for (a, b) in dict.fromkeys(xs):
                 g[(a, b)] = f((a, b))[2]
                 g[(b, a)] = f((b, a))[2]
             rec['g'] = g
-        self.calls.append(rec)
+        # `calls` are the pair-scoring dispatches (what the checks reason about); anything else the code chooses to run on the
+        # pool (e.g. feature construction) is kept apart
+        scoring = all(isinstance(x, tuple) and len(x) == 2 for x in xs) and all(isinstance(t, tuple) and len(t) == 3 for t in res)
+        if scoring:
+            self.calls.append(rec)
+        else:
+            self.__dict__.setdefault('other_calls', []).append(rec)
         return _Res([res[i] for i in ret])
 
 
@@ -194,7 +220,9 @@ def run_inprocess(data_text: str, pool=None, **argkw) -> Rec:
         except SystemExit:
             pass
         except Exception as e:          # noqa: BLE001 – a crash of the task is an observation
+            import traceback
             rec.error = f'{type(e).__name__}: {e}'
+            rec.trace = traceback.format_exc()[-1500:]
         for m in cap.msgs:
             mm = re.match(r'Detected (\d+) invalid lines', m)
             if mm:
